@@ -4,6 +4,7 @@
 package c14
 
 import (
+	"context"
 	"fmt"
 	"sort"
 	"strings"
@@ -371,6 +372,22 @@ var subFaultedTrace = ev.Register("faultedtrace", func(c FaultedCase) error {
 		return fmt.Errorf("harness: %v", err)
 	}
 	ctx := h.Context("full")
+	boundaries := 0
+	if c.Fault.Kind == "cancel" {
+		// the caller gives up at the n-th callback boundary: whatever is in progress may fail, but is still reported
+		var cancel context.CancelFunc
+		ctx, cancel = context.WithCancel(ctx)
+		defer cancel()
+		var mu sync.Mutex
+		h.OnBoundary = func(string) {
+			mu.Lock()
+			boundaries++
+			if boundaries == c.Fault.N {
+				cancel()
+			}
+			mu.Unlock()
+		}
+	}
 	for _, call := range c.World.Script {
 		res := run.DoCall(ctx, call)
 		if res.Panicked != nil || res.Diags.HasErrors() {
@@ -380,7 +397,7 @@ var subFaultedTrace = ev.Register("faultedtrace", func(c FaultedCase) error {
 	if h.Overbudget {
 		return fmt.Errorf("the build does not terminate after fault %v", c.Fault)
 	}
-	if h.Count(c.Fault.Kind) >= c.Fault.N {
+	if h.Count(c.Fault.Kind) >= c.Fault.N || (c.Fault.Kind == "cancel" && boundaries >= c.Fault.N) {
 		ev.NonTrivial(c, "fault-fired")
 	}
 	if err := world.CheckBracketing(h.Log); err != nil {
@@ -392,6 +409,10 @@ var subFaultedTrace = ev.Register("faultedtrace", func(c FaultedCase) error {
 func TestPropFaultedTrace(t *testing.T) {
 	ev.Check(t, subFaultedTrace, func(t *rapid.T) FaultedCase {
 		w := world.Gen(t, world.Config{MaxRemotes: 3, MaxRegistry: 2, NFinders: nFinders})
-		return FaultedCase{World: w, Fault: world.Fault{Kind: rapid.SampledFrom([]string{"fetch", "versions", "versions-empty", "source", "source", "finder-error"}).Draw(t, "kind"), N: rapid.IntRange(1, 3).Draw(t, "n")}}
+		f := world.Fault{Kind: rapid.SampledFrom([]string{"fetch", "fetch-hazard", "cancel", "cancel", "versions", "versions-empty", "source", "source", "finder-error"}).Draw(t, "kind"), N: rapid.IntRange(1, 3).Draw(t, "n")}
+		if f.Kind == "cancel" {
+			f.N = rapid.IntRange(1, 14).Draw(t, "boundary")
+		}
+		return FaultedCase{World: w, Fault: f}
 	})
 }
